@@ -7,6 +7,8 @@ import PV.Model.Gate
 import PV.Model.CFG
 import PV.Model.Summary
 import PV.Model.PySem
+import PV.Model.StructDead
+import PV.Model.Decisions
 /-!
 Line-protocol driver: runs the executable models on the cases the harness also ran on the
 implementation.  Core-only imports (links as a native executable).
@@ -246,6 +248,23 @@ def runLive (t : Array String) : String :=
   let b (x : Bool) : String := if x then "1" else "0"
   s!"{natsSorted r.lines.eraseDups}|{b o.normal}{b o.ret}{b o.brk}{b o.cont}{b o.exc}"
 
+/-- `sdead <f|c|m> s e <list>` → the lines that must be reported: start lines of all statements inside structurally dead statements (specification of C02) -/
+def runSDead (t : Array String) : String :=
+  if t.size < 5 then "bad-op" else
+  let (body, _) := parseList t 3
+  natsSorted (PV.SD.structDead body).eraseDups
+
+/-- `mccabe <dead ranges s-e;s-e | -> <f|c|m> s e <list>` → 1 + decision count (specification of C03) -/
+def runMccabe (t : Array String) : String :=
+  if t.size < 6 then "bad-op" else
+  let ranges : List (Nat × Nat) := if t[0]! == "-" then [] else
+    (t[0]!.splitOn ";").filterMap fun r => match r.splitOn "-" with
+      | [a, b] => some ((tokI a).toNat, (tokI b).toNat)
+      | _ => none
+  let dead (l : Nat) : Bool := ranges.any fun r => decide (r.1 ≤ l) && decide (l ≤ r.2)
+  let (body, _) := parseList t 4
+  toString (PV.Dec.mccabe dead body)
+
 def step (line : String) : String :=
   let parts := (line.splitOn " ").filter (· ≠ "")
   match parts with
@@ -261,6 +280,8 @@ def step (line : String) : String :=
     | "cfg" => runCfg t
     | "summary" => runSummary t
     | "live" => runLive t
+    | "sdead" => runSDead t
+    | "mccabe" => runMccabe t
     | _ => "bad-op"
 
 partial def loop (h : IO.FS.Stream) (out : IO.FS.Stream) : IO Unit := do
